@@ -8,7 +8,8 @@ from vf import clustercommon as cc
 RULE = ('cases = seeded data sets (n 2-60, n<=13 for the exhaustive optimum) x '
         'metric with triangle inequality x stopping criteria (n_clusters in '
         '{None, inf, int} x dist_cutoff in {None, 0, r}) x init_centers '
-        '(none / fewer / equal / more than n_clusters) x function/estimator, '
+        '(none / fewer / equal / more than n_clusters; frames of the data, or '
+        'foreign points incl. ones that own no frame) x function/estimator, '
         'each run with and without the triangle-inequality shortcut; '
         'non-trivial = >=3 greedy steps replayed with a strictly decreasing '
         'radius at least once; distinct by (data hash, metric, criteria, init)')
@@ -25,8 +26,10 @@ class StepBound(Exception):
 
 def shards(tier):
     if tier == 'quick':
-        return [dict(kind='kc', n=1920, parts=16, timeout=900)]
-    return [dict(kind='kc', n=48000, parts=16, timeout=3400)]
+        return [dict(kind='kc', n=1920, parts=12, timeout=900),
+                dict(kind='foreign', n=800, parts=4, timeout=900)]
+    return [dict(kind='kc', n=48000, parts=12, timeout=3400),
+            dict(kind='foreign', n=16000, parts=4, timeout=3400)]
 
 
 def setup(ctx):
@@ -66,6 +69,8 @@ def opt_radius(D, K):
 
 def run_case(ctx, kind, rng, idx):
     from vf.monitor import Frozen
+    if kind == 'foreign':
+        return run_foreign(ctx, rng, idx)
     small = rng.random() < 0.35
     X, info = cc.gen_data(rng, nmax=13 if small else 60)
     n = len(X)
@@ -249,3 +254,146 @@ def run_case(ctx, kind, rng, idx):
                     init_idx)
     if idx % 500 == 0:
         ctx.sample(dict(desc, centers=ci, radii=radii))
+
+
+def run_foreign(ctx, rng, idx):
+    """Initial centers that are NOT frames of the data (e.g. centers of an
+    earlier clustering of other data), including centers that end up owning
+    no frame."""
+    from vf.monitor import Frozen
+    intdata = rng.random() < 0.3
+    if intdata:
+        # integer data with fractional initial centers (e.g. centroids): only
+        # a callable metric accepts the mixed types
+        X, info = cc.gen_data(rng, nmax=40, nmin=4,
+                              dtype=[np.int32, np.int64][int(rng.integers(0, 2))])
+        mname = 'chebyshev'
+    else:
+        X, info = cc.gen_data(rng, nmax=40, nmin=4, dtype=np.float64)
+        mname = ['euclidean', 'manhattan', 'chebyshev'][int(rng.integers(0, 3))]
+    n, d = X.shape
+    m = cc.metric_arg(mname)
+    ref = cc.ref_metric(mname)
+    tol = 1e-9
+    scale = float(np.abs(X).max()) or 1.0
+    n_init = int(rng.integers(1, 5))
+    base = X[rng.choice(n, size=n_init, replace=False)].astype(float)
+    init = base + rng.normal(scale=0.05 * scale, size=base.shape)
+    dup = rng.random() < 0.35
+    if dup:
+        init = np.vstack([init, init[:1] + 1e-7 * scale])
+        n_init += 1
+    extra = int(rng.integers(0, 5))
+    n_clusters = n_init + extra
+    Dc = np.stack([ref(X, c) for c in init], axis=1)
+    diam = float(Dc.max())
+    cutoff = None if rng.random() < 0.6 else float(diam * rng.uniform(0.05, 0.6))
+    eff_c = 0 if cutoff is None else cutoff
+    owners = len(np.unique(Dc.argmin(axis=1)))
+    desc = dict(info, metric=mname, n_init=n_init, duplicate=dup,
+                n_clusters=n_clusters, dist_cutoff=cutoff,
+                init_owning_frames=owners,
+                X=X if X.size <= 60 else 'elided',
+                init=init if init.size <= 30 else 'elided')
+    ctx.describe(desc)
+    ctx.seen('criteria', 'foreign/%s/%s' % (
+        'owners<init' if owners < n_init else 'all-own',
+        'r' if cutoff is not None else 'n'))
+    out = {}
+    for tri in (False, True):
+        ctx.hist = []
+        arg = init.copy()
+        fz = Frozen(X, arg)
+        try:
+            out[tri] = kcenters.kcenters(
+                X, m, n_clusters=n_clusters, dist_cutoff=cutoff,
+                init_centers=arg, use_triangle_inequality=tri)
+        except StepBound as e:
+            ctx.violation('kcenters.foreign-init.does-not-stop', str(e))
+            return
+        except Exception as e:  # noqa
+            ctx.violation('kcenters.foreign-init.raised[%s]' % (
+                'owners<init' if owners < n_init else 'all-own'),
+                '%s: %s' % (type(e).__name__, str(e)[:200]))
+            return
+        if fz.changed():
+            ctx.violation('kcenters.mutates-input', '%s' % fz.changed())
+    res = out[False]
+    cen = [np.asarray(c, dtype=float) for c in res.centers]
+    K = len(cen)
+    ci = [int(i) for i in res.center_indices]
+    ctx.count('stop_rules_checked')
+
+    def bad(key, msg):
+        ctx.violation('kcenters.foreign-init.' + key, msg)
+    if len(ci) != K:
+        bad('centers-vs-indices', '%d centers but %d center indices '
+            '(%d initial centers, %d of them own frames)' % (
+                K, len(ci), n_init, owners))
+    if K < n_init or any(not np.array_equal(cen[i], init[i])
+                         for i in range(min(K, n_init))):
+        bad('init-centers-lost', 'the first centers are not the supplied ones')
+        return
+    if len(ci) == K:
+        for t in range(n_init, K):
+            if not np.array_equal(cen[t], X[ci[t]]):
+                bad('center-is-not-its-frame', 'center %d is not X[%d]' % (
+                    t, ci[t]))
+                break
+    lab = np.asarray(res.assignments)
+    dist = np.asarray(res.distances, dtype=float)
+    if np.any(lab < 0) or np.any(lab >= K):
+        bad('label-range', 'labels %s for %d centers' % (
+            np.unique(lab).tolist(), K))
+        return
+    DK = np.stack([ref(X, c) for c in cen], axis=1)
+    own = DK[np.arange(n), lab]
+    sc = 1 + np.abs(own)
+    if np.any(np.abs(own - dist) > tol * sc):
+        i = int(np.argmax(np.abs(own - dist)))
+        bad('distance-wrong', 'frame %d: reported %.9g, distance to its '
+            'center %d is %.9g' % (i, dist[i], lab[i], own[i]))
+    if np.any(DK.min(axis=1) < dist - tol * sc):
+        bad('not-nearest', 'a reported center is strictly closer than the '
+            'assigned one')
+    # greedy replay from the supplied centers
+    dmin = Dc.min(axis=1)
+    radii = [float(dmin.max())]
+    for t in range(n_init, K):
+        ctx.count('greedy_steps_replayed')
+        row = ref(X, cen[t])
+        j = np.where(row <= tol)[0]
+        c = int(j[0]) if len(j) else -1
+        mx = dmin.max()
+        if c < 0 or dmin[c] < mx - tol * (1 + mx):
+            bad('not-farthest', 'center %d is not a farthest frame '
+                '(%.9g vs max %.9g)' % (t, dmin[c] if c >= 0 else -1, mx))
+            return
+        dmin = np.minimum(dmin, row)
+        radii.append(float(dmin.max()))
+    # stop rule, both ways
+    if not (K >= n_clusters or radii[-1] <= eff_c + tol * (1 + eff_c)):
+        bad('stopped-early', 'K=%d < n_clusters=%d, radius %.6g > cutoff '
+            '%.6g' % (K, n_clusters, radii[-1], eff_c))
+    if K > n_init and (K - 1 >= n_clusters or radii[-2] <= eff_c - tol):
+        bad('stopped-late', 'returned %d centers for n_clusters=%d (%d '
+            'initial centers, %d own frames); radius before the last step '
+            '%.6g, cutoff %.6g' % (K, n_clusters, n_init, owners, radii[-2],
+                                   eff_c))
+    # shortcut
+    r2 = out[True]
+    ctx.count('shortcut_pairs')
+    same_c = len(r2.centers) == K and all(
+        np.array_equal(np.asarray(a), np.asarray(b))
+        for a, b in zip(r2.centers, res.centers))
+    d2 = np.asarray(r2.distances, dtype=float)
+    if not same_c or d2.shape != dist.shape or not np.allclose(
+            d2, dist, rtol=1e-9, atol=1e-12):
+        bad('shortcut-differs', 'with the triangle-inequality shortcut: same '
+            'centers=%s, max |d - d_plain| = %.3g' % (
+                same_c, np.abs(d2 - dist).max() if d2.shape == dist.shape
+                else -1))
+    if K - n_init >= 2:
+        ctx.nontriv('foreign', X.tobytes(), init.tobytes(), n_clusters, cutoff)
+    if idx % 300 == 0:
+        ctx.sample(desc)
